@@ -12,7 +12,7 @@ meta = json.load(open(os.path.join(ROOT, "tools", "manifest_meta.json")))
 all_ids = [json.loads(l)["id"] for l in open(os.path.join(ROOT, "properties.jsonl"))]
 checks = []
 for pid in all_ids:
-    if pid not in PROPS or pid in meta.get("withdrawn", {}):
+    if pid not in PROPS or pid in meta.get("withdrawn", {}) or pid not in meta.get("ready", []):
         continue
     m = MANIFESTS.get(pid, {})
     checks.append({
@@ -28,7 +28,7 @@ for pid in all_ids:
     })
 na = []
 for pid in all_ids:
-    if pid not in PROPS or pid in meta.get("withdrawn", {}):
+    if pid not in PROPS or pid in meta.get("withdrawn", {}) or pid not in meta.get("ready", []):
         na.append({"property_id": pid, "reason": meta.get("withdrawn", {}).get(pid) or meta.get("not_built", {}).get(pid, "check not built yet (work in progress; see DESIGN.md section 7)")})
 man = {
     "version": 1,
